@@ -269,3 +269,28 @@ def get_seed():
         return int(os.environ.get("VERIF_SEED", "1"))
     except ValueError:
         return 1
+
+
+HARNESS_CHECKED_BIN = os.path.join(BUILD, "harness", "checked", "rqh")
+
+
+def build_harness_checked():
+    """harness + libpatch with overflow checks and debug assertions on (arithmetic sanitizer)"""
+    with BuildLock("harness"):
+        hdir = os.path.join(VERIF, "harness")
+        lock_dst = os.path.join(hdir, "Cargo.lock")
+        if not os.path.exists(lock_dst):
+            shutil.copy(os.path.join(REPO, "Cargo.lock"), lock_dst)
+        _run_build(["cargo", "build", "--profile", "checked", "--offline", "--target-dir", os.path.join(BUILD, "harness")], hdir, clean_env(), "harness (overflow-checks, debug-assertions)")
+    return HARNESS_CHECKED_BIN
+
+
+def build_tsan_binary():
+    """rapidquilt with ThreadSanitizer (nightly, -Zbuild-std); hooks on"""
+    with BuildLock("tsan"):
+        target = os.path.join(BUILD, "tsan")
+        env = clean_env({"RUSTFLAGS": "-Zsanitizer=thread --cfg has_std --cfg %s" % GUARD})
+        cmd = ["cargo", "+nightly", "build", "--release", "--offline", "-Zbuild-std", "--target", "x86_64-unknown-linux-gnu", "--bin", "rapidquilt",
+               "--config", "profile.release.lto=false", "--target-dir", target, "--manifest-path", os.path.join(REPO, "Cargo.toml")]
+        _run_build(cmd, REPO, env, "rapidquilt (ThreadSanitizer)")
+    return os.path.join(target, "x86_64-unknown-linux-gnu", "release", "rapidquilt")
